@@ -20,11 +20,67 @@ def run(prog, run):
                        'the authenticated jid before the emit; routing entry points and by-JID tables have a closed set of writers/callers.')
     run.assume('the configured QXmppPasswordChecker is the authority on passwords; plug-in server extensions are outside the analysis')
     hs = prog.fn(IC + '::handleStanza')
+    _find_roles(prog, hs)
     r1(prog, run)
     r2(prog, run, hs)
     r3(prog, run, hs)
     r4(prog, run)
     r5(prog, run)
+
+
+def _find_roles(prog, hs):
+    """the identity member is the one the public accessor QXmppIncomingClient::jid() returns; the resource member is the other member
+    of the private class the bound address is rebuilt from"""
+    global JID, JIDX, BARE, RESOURCE
+    acc = prog.fn(IC + '::jid')
+    fields = {acc.nodes[acc.skip(n['e'])].get('f') for _, n in acc.returns() if 'e' in n}
+    fields.discard(None)
+    if len(fields) != 1:
+        raise AnalysisBroken('C16: the member returned by QXmppIncomingClient::jid() is not a single field: %s' % sorted(fields))
+    JID = fields.pop()
+    JIDX = 'this.d.' + JID.split('::')[-1]
+    BARE = 'QXmppUtils::jidToBareJid(%s)' % JIDX
+    RESOURCE = None
+    for i, n in hs.all_nodes('assign'):
+        if hs.nodes[hs.skip(n['l'])].get('f') == JID:
+            for j in hs.walk(n['r']):
+                m = hs.nodes[j]
+                if m['k'] == 'mem' and (m.get('f') or '').startswith('QXmppIncomingClientPrivate::') and m['f'] != JID and 'QString' in (m.get('t') or '') \
+                        and any(hs.nodes[hs.skip(a['l'])].get('f') == m['f'] for _, a in hs.all_nodes('assign')):
+                    RESOURCE = m['f']            # written by handleStanza (bind) and part of the bound address
+
+
+RESOURCE = None
+
+
+def _is_jid(f, nid):
+    n = f.nodes[f.skip(nid)]
+    return n['k'] == 'mem' and n.get('f') == JID
+
+
+def _is_bare(f, nid):
+    n = f.nodes[f.skip(nid)]
+    return n['k'] == 'call' and f.cname(n) == 'QXmppUtils::jidToBareJid' and bool(n.get('args')) and _is_jid(f, n['args'][0])
+
+
+def _approved_writes(prog, f, sites):
+    """for each site (node id in f): the approving authentication edge it depends on, decided by evaluating f once per verdict of the
+    SASL server / of the password checker (whatever the spelling of the dispatch: if-chain, switch, guard clauses), or None"""
+    out = {}
+    for callee, enum, good in (('QXmppSaslServer::respond', 'QXmppSaslServer::Response', 'Succeeded'),
+                               ('QXmppPasswordReply::error', 'QXmppPasswordReply::Error', 'NoError')):
+        if not any(True for _ in f.calls(callee)):
+            continue
+        names = [e['name'] for e in prog.enum(enum)['enumerators']]
+        scope = enum.rsplit('::', 1)[0] + '::'
+        reach = {}
+        for nm in names:
+            ev = cfgx.Evaluator(f, {callee: ('enum', scope + nm)})
+            reach[nm] = cfgx.sink_reachability(f, lambda g, c, st, ev=ev: ev.ev(c, st), sites)
+        for sidx in sites:
+            if reach[good][sidx] is not None and all(reach[nm][sidx] is None for nm in names if nm != good):
+                out[sidx] = '%s == %s' % (callee.split('::')[-1] + '()', good)
+    return out
 
 
 def r1(prog, run):
@@ -34,6 +90,10 @@ def r1(prog, run):
     uses = [(f, i, k, h) for f, i, k, h in field_uses(prog, JID) if k in ('write', 'addr') and h != 'constructor initialiser']
     if len(uses) < 3:
         raise AnalysisBroken('C16.R1: expected >=3 writes to %s, found %d' % (JID, len(uses)))
+    approvals = {}
+    for f in {u[0].id: u[0] for u in uses}.values():
+        sites = [f.parents().get(i) for g, i, k, h in uses if g.id == f.id and f.parents().get(i) is not None and f.nodes[f.parents()[i]]['k'] == 'assign']
+        approvals[f.id] = _approved_writes(prog, f, sites)
     for f, i, k, h in uses:
         run.instance(rid)
         top = top_function(prog, f)
@@ -43,22 +103,13 @@ def r1(prog, run):
             run.violation(rid, 'jid-write#%s#%s' % (top.qname, h.split(' ')[0]), f.loc(i), 'identity modified by %s' % h)
             continue
         rhs = f.fmt(pn['r'])
-        if JIDX in rhs:
-            if 'QXmppUtils::jidToBareJid(this.d.jid)' in rhs:
+        if any(_is_jid(f, j) for j in f.walk(pn['r'])):
+            if any(_is_bare(f, j) for j in f.walk(pn['r'])):
                 run.ok(rid, f.loc(i), 'resource binding keeps the authenticated bare JID: %s' % rhs[:80], nontrivial=False)
             else:
                 run.violation(rid, 'jid-write#%s#rebind' % top.qname, f.loc(i), 'jid rebuilt from itself without keeping the bare part: %s' % rhs[:100])
             continue
-        approved = None
-        for c, pol in f.atomic_assertions_at(par):
-            txt = f.fmt(c)
-            if isinstance(pol, bool):
-                bo = f.binop(c)
-                if bo and 'QXmppSaslServer::respond' in txt and 'QXmppSaslServer::Succeeded' in txt and (pol == (bo[0] == '==')):
-                    approved = 'respond(...) == Succeeded'
-            elif isinstance(pol, tuple) and isinstance(pol[1], dict) and pol[1].get('name') == 'QXmppPasswordReply::NoError' \
-                    and 'QXmppPasswordReply::error' in txt:
-                approved = 'reply->error() case NoError'
+        approved = approvals[f.id].get(par)
         if not approved:
             run.violation(rid, 'jid-write#%s#unapproved' % top.qname, f.loc(i),
                           'identity assigned without an approving authentication edge: d->jid = %s' % rhs[:100])
@@ -72,7 +123,7 @@ def r1(prog, run):
 def _unauth_eval(fn):
     def custom(f, nid, st):
         n = f.nodes[nid]
-        if n['k'] == 'call' and f.cname(n) in ('QString::isEmpty', 'QString::isNull') and n.get('obj') is not None and f.fmt(n['obj']) == JIDX:
+        if n['k'] == 'call' and f.cname(n) in ('QString::isEmpty', 'QString::isNull') and n.get('obj') is not None and _is_jid(f, n['obj']):
             return (True,)
         return None
     ev = cfgx.Evaluator(fn, {}, custom=custom)
@@ -92,7 +143,7 @@ def _client_sinks(hs):
             sinks.append((i, 'reply ' + (a.get('name') or hs.fmt(n['args'][0])[:30])))
     for i, n in hs.all_nodes('assign'):
         l = hs.nodes[hs.skip(n['l'])]
-        if l.get('f') in (JID, 'QXmppIncomingClientPrivate::resource'):
+        if l.get('f') in (JID, RESOURCE):
             sinks.append((i, 'bind: writes ' + l['name']))
     return sinks
 
@@ -104,9 +155,9 @@ def r2(prog, run, hs):
     # authentication-arm jid writes are not sinks: keep only those in the ns_client arm (they read d->jid)
     keep = []
     for i, what in sinks:
-        if what.startswith('bind: writes jid'):
+        if what == 'bind: writes ' + JID.split('::')[-1]:
             n = hs.nodes[i]
-            if JIDX not in hs.fmt(n['r']):
+            if not any(_is_jid(hs, j) for j in hs.walk(n['r'])):
                 continue
         keep.append((i, what))
     sinks = keep
@@ -135,9 +186,9 @@ def r3(prog, run, hs):
             return (False,)
         bo = f.binop(nid)
         if bo and bo[0] in ('==', '!='):
-            a, b = f.fmt(bo[1]), f.fmt(bo[2])
-            if {a, b} in ({FROM, JIDX}, {FROM, BARE}):
-                return (bo[0] == '!=',)
+            for x, y in ((bo[1], bo[2]), (bo[2], bo[1])):
+                if f.fmt(x) == FROM and (_is_jid(f, y) or _is_bare(f, y)):
+                    return (bo[0] == '!=',)
         return None
     ev = cfgx.Evaluator(hs, {}, custom=custom)
     res = cfgx.sink_reachability(hs, lambda f, c, st: ev.ev(c, st), emits)
@@ -155,7 +206,7 @@ def r3(prog, run, hs):
             o = f.fmt(n['obj'])
             if o == FROM or (o.endswith('QDomElement::attribute("from")') and 'p0' in o):
                 return (True,)
-            if o == JIDX:
+            if _is_jid(f, n['obj']):
                 return (False,)
         return None
     ev2 = cfgx.Evaluator(hs, {}, custom=custom2)
@@ -166,7 +217,7 @@ def r3(prog, run, hs):
             cn = f.cname(n)
             if cn == 'QDomElement::setAttribute' and f.strval(n['args'][0]) == 'from':
                 v = f.fmt(n['args'][1])
-                good = all(x in (JIDX, BARE) for x in _value_leaves(f, n['args'][1]))
+                good = all(_is_jid(g, x) or _is_bare(g, x) for g, x in _value_leaves(prog, f, n['args'][1]))
                 return st + (('stamp', good, v[:60]),)
             if cn == IC + '::elementReceived':
                 return st + (('emit', f.fmt(n['args'][0])[:40]),)
@@ -195,16 +246,25 @@ def r3(prog, run, hs):
         raise AnalysisBroken('C16.R3: no routing path found for an authenticated client with empty from')
 
 
-def _value_leaves(f, nid, depth=0):
-    """canonical texts of the values an expression may take (through ?: and single-assignment locals)"""
+def _value_leaves(prog, f, nid, depth=0):
+    """[(fn, node)] the values an expression may take: through ?:, single-assignment locals and the returns of same-file helpers"""
     n = f.nodes[f.skip(nid)]
     if n['k'] == 'cond' and depth < 6:
-        return _value_leaves(f, n['a'], depth + 1) + _value_leaves(f, n['b'], depth + 1)
+        return _value_leaves(prog, f, n['a'], depth + 1) + _value_leaves(prog, f, n['b'], depth + 1)
     if n['k'] == 'var' and n.get('vk') == 'local' and depth < 6:
         d = f.single_def(n['decl'])
         if d is not None:
-            return _value_leaves(f, d, depth + 1)
-    return [f.fmt(nid)]
+            return _value_leaves(prog, f, d, depth + 1)
+    if n['k'] == 'call' and not n.get('op') and depth < 6 and not _is_bare(f, nid):
+        gs = [g for g in prog.callee_fns(f, n) if g.entry is not None and g.file == f.file]
+        if len(gs) == 1:
+            out = []
+            for i, r in gs[0].returns():
+                if 'e' in r:
+                    out += _value_leaves(prog, gs[0], r['e'], depth + 1)
+            if out:
+                return out
+    return [(f, nid)]
 
 
 def r4(prog, run):
